@@ -234,3 +234,91 @@ pub fn c10(cfg: &J) {
         mc::violation("inputs-not-conserved", format!("emitted per key (count, weight) {have:?} but the inputs were {need:?}: {end:?}"));
     }
 }
+
+// ------------------------------------------------------------------------------------------
+// MutexSink: merges from several threads racing the close
+
+use metrique_aggregation::aggregator::Aggregate;
+use metrique_aggregation::sink::MutexSink;
+use metrique_aggregation::traits::RootSink;
+
+#[aggregate]
+#[metrics]
+pub struct Tot {
+    #[aggregate(strategy = Sum)]
+    n: u64,
+}
+
+#[metrics]
+pub struct Outer {
+    #[metrics(flatten)]
+    tot: MutexSink<Aggregate<Tot>>,
+}
+
+struct CollectN(u64);
+struct CVN<'c>(&'c mut u64);
+impl ValueWriter for CVN<'_> {
+    fn string(self, _v: &str) {}
+    fn metric<'a>(self, distribution: impl IntoIterator<Item = Observation>, _unit: Unit, _d: impl IntoIterator<Item = (&'a str, &'a str)>, _f: MetricFlags<'_>) {
+        for o in distribution {
+            if let Observation::Unsigned(v) = o {
+                *self.0 += v;
+            }
+        }
+    }
+    fn error(self, _e: ValidationError) {}
+}
+impl<'a> EntryWriter<'a> for CollectN {
+    fn timestamp(&mut self, _t: SystemTime) {}
+    fn value(&mut self, _name: impl Into<Cow<'a, str>>, value: &(impl Value + ?Sized)) {
+        value.write(CVN(&mut self.0));
+    }
+    fn config(&mut self, _config: &'a dyn EntryConfig) {}
+}
+
+/// cfg: mergers: [[n, ...], ...] values merged by each thread through a clone of the sink while
+/// main closes it. Everything whose merge returned before the close began must be in the closed
+/// aggregate; nothing may be counted twice.
+pub fn c10_mutex(cfg: &J) {
+    let mergers: Vec<Vec<u64>> = cfg["mergers"].as_array().unwrap().iter().map(|m| m.as_array().unwrap().iter().map(|v| v.as_u64().unwrap()).collect()).collect();
+    let join_first = cfg["join_first"].as_bool().unwrap_or(false);
+    let sink: MutexSink<Aggregate<Tot>> = MutexSink::new(Aggregate::default());
+    let done: Arc<Mutex<Vec<u64>>> = Arc::new(Mutex::new(Vec::new()));
+    let mut threads: Vec<_> = mergers
+        .iter()
+        .cloned()
+        .map(|vals| {
+            let s = sink.clone();
+            let done = done.clone();
+            Some(thread::spawn(move || {
+                for v in vals {
+                    s.merge(Tot { n: v }.close());
+                    done.lock().unwrap().push(v);
+                }
+            }))
+        })
+        .collect();
+    if join_first {
+        for t in threads.iter_mut() {
+            t.take().unwrap().join().unwrap();
+        }
+    }
+    let before: Vec<u64> = done.lock().unwrap().clone();
+    let closed = Outer { tot: sink }.close();
+    let mut c = CollectN(0);
+    metrique::RootEntry::new(closed).write(&mut c);
+    for t in threads.iter_mut() {
+        if let Some(t) = t.take() {
+            t.join().unwrap();
+        }
+    }
+    let all: u64 = mergers.iter().flatten().sum();
+    let need: u64 = before.iter().sum();
+    mc::outcome(format!("emitted {} of {all} (merged before the close began: {need})", c.0));
+    if c.0 < need {
+        mc::violation("mutex-sink-close-lost-merged-input", format!("the closed aggregate holds {} but inputs summing to {need} had been merged (their merge() had returned) before close() began", c.0));
+    }
+    if c.0 > all {
+        mc::violation("mutex-sink-counted-twice", format!("the closed aggregate holds {} but all inputs sum to {all}", c.0));
+    }
+}
